@@ -377,7 +377,7 @@ CHECKS["C19"] = {
                   "consecutive snapshots differ, the final content arrives within 100 pull periods without further writes, nothing spurious follows; job histories-with-etcd-outage: the server is down for longer than a pull period plus the request timeout (pulls fail) before or after the last write; fault kinds: server stop/start, and the member's client cut off from its server (pulls fail every time)",
     "level_note": "schedules inside etcd / the gRPC client are not controlled (free-running): the enumeration is over histories and fault points; a server-side watch cancellation cannot be provoked from outside and is covered only through the restart fault and the periodic pull",
     "rule": "choice tree: api, consumer, gap, history length, each operation, restart point; distinct_nontrivial = distinct (api, number of distinct contents, number of snapshots) classes",
-    "bounds": {"quick": "histories <=3, 2 APIs; outage around 1 write", "thorough": "histories <=4, 4 APIs, 2 gaps; restart at every point of histories <=2"},
+    "bounds": {"quick": "histories <=3, 2 APIs; outage around 1 write", "thorough": "histories <=4 (spaced writes <=3), 4 APIs; restart / outage at every point of histories <=2"},
     "assumptions": ["the harness is the only writer of its key prefix", "liveness deadline 100 pull periods (10 s)"],
     "units": [
         {"name": "cluster", "pkg": "pkg/cluster", "test": "TestVerifC19", "workers": 12, "deadline_s": {"quick": 240, "thorough": 1700}},
